@@ -661,6 +661,17 @@ theorem C13_intersection_score_after_moves (hA : Lawful A VA WA) (g : σ → Nat
 
 end combinators
 
+/-- **The score clause composes over every nesting.** `ScoredNode`: the scorer types assembled at any
+depth from the sorted-vector leaf with SUM unions, minimum-should-match disjunctions, intersections,
+exclusions and required/optional nodes. Every one of them is `Scored`: it refines the sorted-list
+cursor through every legal call program (`Scored.lawful`), and on every valid state sitting on a
+document `score()` equals the node's score function at that document (`Scored.hg`) — a function
+that none of the node's methods changes (`Scored.ghost`), so the score at a document does not depend
+on how it was reached. -/
+theorem C13_score_composes {σ : Type} {C : DS σ} {V : σ → List Nat → Prop}
+    {W : σ → Nat → List Nat → Prop} {g : σ → Nat → Nat} (h : ScoredNode σ C V W g) : Scored C V W g :=
+  h.scored
+
 /-- the sorted-vector leaf is a scored child -/
 theorem C13_scored_vec : Scored Vec.ds Vec.V (defaultW Vec.V) (fun c (_ : Nat) => c.score) := Vec.scored
 
@@ -740,8 +751,10 @@ intersection.
 OPEN — the DisjunctionMax combiner (oracle-only, not modelled).
 The SCORE clause composes: `Scored` (what a scoring parent needs from a child) holds for the vector
 leaf and is closed under SUM union, Disjunction, Intersection, Exclude and RequiredOptional
-(`C13_scored_*_closed`); a single statement quantifying over the harness's tree descriptions, as
-`C13_tree_program_equiv` does for the document sequence, is not written.
+(`C13_scored_*_closed`, packaged over every nesting as `C13_score_composes`). The inner nodes there
+carry their total score function as ghost data (`DS.withGhost`); the formal link from those scorer
+types to the driver's `levelDS` / `buildTree` (as `C13_tree_program_equiv` has for the document
+sequence) is not written.
 
 Hypothesis kept: the children of an Intersection hold documents with doc + BLOCK_WINDOW ≤ TERMINATED
 (`Small`). It mirrors a precondition of the real default `fill_bitset_block(min_doc, ..)`: with
@@ -918,6 +931,8 @@ example : let H := 64
     (D.score (implFinal D s0 [.seekDanger 65])).1 = 10 ∧ (implFinal D s0 [.seekDanger 65]).doc = 65
       ∧ (D.score (implFinal D s0 [.advance, .seek 129])).1 = 7 := by
   decide +kernel
+example := C13_score_composes
+  (ScoredNode.inter {} (ScoredNode.union 64 (by decide) (by decide) {} (ScoredNode.reqopt ScoredNode.vec ScoredNode.vec)))
 example : Exclude.ok [[5, 7], [9]] 1 = true ∧ Exclude.ok [[5, 7], [9]] 9 = false := by decide
 example : Vec.V (Vec.init [1, 5, 9] 2) [1, 5, 9] := ⟨rfl, by
   refine ⟨by decide, ?_⟩
